@@ -134,9 +134,14 @@ func c09R2R3(c *Ctx) {
 		whySc := ""
 		nm := 0
 		for _, p := range ex.Paths {
-			dis, dk := p.BoolCall(".GetDisableRefreshTokenValidation", nil)
-			if dk && dis {
-				if len(p.Calls(".GetRefreshTokenSession")) > 0 || (p.Success() && rtC != nil && len(p.Rets) > 0 && p.Rets[0].Key() == rtC.Key()) {
+			// the refresh path may be entered only where the switch is known to be off
+			for _, e := range p.Calls(".GetRefreshTokenSession") {
+				if dis, dk := p.BoolCallAt(e, ".GetDisableRefreshTokenValidation", nil); !dk || dis {
+					okDis, wDis = false, p
+				}
+			}
+			if p.Success() && rtC != nil && len(p.Rets) > 0 && p.Rets[0].Key() == rtC.Key() {
+				if dis, dk := p.BoolCall(".GetDisableRefreshTokenValidation", nil); !dk || dis {
 					okDis, wDis = false, p
 				}
 			}
@@ -192,7 +197,7 @@ func c09R2R3(c *Ctx) {
 		}
 		c.Check(okSc && nm > 0, "C09.R2", "introspect", fn, "required-scopes-covered", "every iterated non-empty required scope was accepted by the configured scope strategy against the stored granted scopes before the stored request is merged", whySc, wSc)
 		c.Check(okUse, "C09.R2", "introspect", fn, "token-use-matches-lookup", "the returned token use is the kind of token that was looked up and merged", "token use differs from the looked-up kind", wUse)
-		c.Check(okDis, "C09.R3", "introspect", fn, "refresh-validation-disabled", "with refresh-token validation disabled the refresh lookup is never made and refresh_token is never returned", "refresh path reachable although disabled", wDis)
+		c.Check(okDis, "C09.R3", "introspect", fn, "refresh-validation-disabled", "the refresh-token lookup is made and refresh_token is returned only on paths that know GetDisableRefreshTokenValidation is false", "the refresh path is reachable without the switch known to be off", wDis)
 	}
 	if n == 0 {
 		c.RoleUnmatched("C09.R2", "introspect", "storage-backed TokenIntrospector")
